@@ -513,3 +513,48 @@ Fixpoint run (t : btree) (ops : list op) : btree * list opres :=
   | [] => (t, [])
   | o :: r => let '(t1, x) := step t o in let '(t2, xs) := run t1 r in (t2, x :: xs)
   end.
+
+(* ------------------------------------------------------------------ block numbers are Go uint *)
+
+(* AddBlock with the 64-bit arithmetic of the Go code made explicit: `number := parent.number + 1`
+   wraps at 2^64, header.Number is a uint.  ProofsWrap.v shows that on histories whose numbers
+   stay below 2^64 (root number + number of operations < 2^64) this is [add_block]; the two
+   differ only when a parent carries the number 2^64 - 1. *)
+Definition two64 : N := 18446744073709551616.
+
+Definition add_block64 (t : btree) (hd : header) (arrival : Z) : outcome btree :=
+  match get_node t (h_parent hd) with
+  | None => Err e_parent_not_found
+  | Some p =>
+    match get_node t (h_hash hd) with
+    | Some _ => Err e_block_exists
+    | None =>
+      let number := (nnumber p + 1) mod two64 in
+      if negb (number =? h_number hd) then Err e_unexpected_number
+      else
+        match (if h_number hd =? 0 then Ok false else is_primary (h_digest hd)) with
+        | Ok prim =>
+          Ok {| root := insert_child (h_parent hd) (BNode (h_hash hd) number arrival prim []) (root t);
+                leaves := replace_leaf (leaves t) (h_parent hd) (h_hash hd) |}
+        | _ => Err e_is_primary
+        end
+    end
+  end.
+
+Definition step64 (t : btree) (o : op) : btree * opres :=
+  match o with
+  | OAdd hd a =>
+    match add_block64 t hd a with
+    | Ok t' => (t', RAdd (Ok tt))
+    | Err c => (t, RAdd (Err c))
+    | Panic => (t, RAdd Panic)
+    | OutOfFuel => (t, RAdd OutOfFuel)
+    end
+  | OFin h => let '(t', p) := prune t h in (t', RFin p)
+  end.
+
+Fixpoint run64 (t : btree) (ops : list op) : btree * list opres :=
+  match ops with
+  | [] => (t, [])
+  | o :: r => let '(t1, x) := step64 t o in let '(t2, xs) := run64 t1 r in (t2, x :: xs)
+  end.
